@@ -17,8 +17,9 @@
 //   cls := 0 | 1 | 2 | src | out
 //
 // Every intercepted call is appended to the event log (SIMIO_LOG), one line each. For pipes
-// the shim loops until the planned chunk is full or EOF, so chunk boundaries are the plan's,
-// not the kernel's, and the run does not depend on when the feeder is scheduled.
+// the shim loops until the planned chunk (without a plan: the requested size) is full or EOF,
+// so chunk boundaries are the plan's, not the kernel's, and the run does not depend on when the
+// feeder is scheduled.
 //
 // Everything is done with raw syscalls: no libc stdio, no malloc, no dlsym.
 
@@ -206,7 +207,8 @@ ssize_t read(int fd, void *buf, size_t count) {
     if (r < 0) { if (errno == EINTR) continue; if (got == 0) { int se = errno; logev("read", c, (long)count, -1, se); errno = se; return -1; } break; }
     if (r == 0) break;
     got += r;
-    if (nrch[c] == 0 && !have_reof[c]) break; /* no chunk plan: behave like the kernel */
+    /* Always fill the chunk (or reach EOF), plan or no plan: on a pipe the kernel's short
+       reads depend on how far the writer has got, which is timing the simulator does not own. */
   }
   rdelivered[c] += got;
   logev("read", c, (long)count, got, 0);
